@@ -748,6 +748,19 @@ def dec_index(enc):
 SLICE_REDS = ["sum", "mean", "max", "min", "var", "argmin", "any", "nansum", "prod", "topk"]
 
 
+def slice_makes_zero_chunk(r, idx):
+    """True when slicing the reduction output `r` with `idx` leaves a zero-length chunk although it may select
+    elements (a stepped slice that skips a whole trailing block does): pushed through a min/max this puts a
+    zero-length chunk on a kept axis of the input.  Metadata only (unoptimized expression)."""
+    import dask
+
+    try:
+        with dask.config.set({"array.optimize-graph": False}):
+            return any(0 in c for c in r[idx].chunks)
+    except Exception:
+        return False
+
+
 def check_slice_case(ctx, case, count=True):
     import dask
     import dask_array as da
@@ -774,6 +787,7 @@ def check_slice_case(ctx, case, count=True):
                     results[opt] = (np.asarray(y.compute(**SYNC)), tuple(y.shape), None)
             except Exception as e:
                 results[opt] = (None, None, e)
+        zero_chunk = slice_makes_zero_chunk(r, idx)
     if count:
         ctx.count(("slice", case["red"], bool(case.get("keepdims")), tuple("i" if isinstance(i, int) else ("n" if i is None else ("s-" if (i.step or 1) < 0 else "s+")) for i in idx),
                    case["axis"] if not isinstance(case["axis"], list) else tuple(case["axis"])))
@@ -783,6 +797,10 @@ def check_slice_case(ctx, case, count=True):
             sig = f"reduction-slice:{case['red']}:raises"
             if want.size == 0 and opt and results[False][2] is None and case["red"] in NEEDS_NONEMPTY:
                 sig = "reduction-slice:empty-selection-raises-when-optimized"
+            elif want.size and opt and results[False][2] is None and case["red"] in MINMAX and zero_chunk:
+                # the (stepped) slice leaves a zero-length chunk on a kept axis; pushed into the input it hits
+                # chunk_min/chunk_max on an empty block: the listed min/max zero-length-chunk class
+                sig = "reduction:minmax:zero-length-chunk-on-kept-axis"
             ctx.fail(sig, dict(case, optimize=opt, error=repr(exc)[:300], want=_short(want)),
                      f"sliced reduction raises ({tag}) where NumPy returns a value")
             return False
@@ -798,7 +816,10 @@ def check_slice_case(ctx, case, count=True):
             except AssertionError:
                 bad = "values"
         if bad:
-            ctx.fail(f"reduction-slice:{case['red']}:{'shape' if bad.startswith('shape') else 'value'}",
+            sig = f"reduction-slice:{case['red']}:{'shape' if bad.startswith('shape') else 'value'}"
+            if want.size and opt and case["red"] in MINMAX and zero_chunk:
+                sig = "reduction:minmax:zero-length-chunk-on-kept-axis"
+            ctx.fail(sig,
                      dict(case, optimize=opt, got=_short(got), want=_short(want)),
                      f"slice of a reduction ({tag}) differs from slicing the NumPy reduction: {bad}")
             return False
@@ -838,6 +859,17 @@ def slice_search(ctx):
             except IndexError:
                 continue
         case["index"] = enc_index(idx)
+        if red in MINMAX:
+            # a slice that leaves a zero-length chunk on a kept axis: member of the listed min/max
+            # zero-length-chunk class once pushed into the input (probed separately) -> not in the random stream
+            import dask_array as da
+
+            with warnings.catch_warnings():
+                warnings.simplefilter("ignore")
+                r0, _ = call_pair(case, da, da.from_array(a, chunks=tuple(tuple(c) for c in chunks)), a)
+                if slice_makes_zero_chunk(r0, idx):
+                    ctx.notes["slice.skipped_minmax_zero_chunk"] = ctx.notes.get("slice.skipped_minmax_zero_chunk", 0) + 1
+                    continue
         check_slice_case(ctx, case)
         if ctx.elapsed() - t_start > ctx.scale(10, 150):
             ctx.notes["slice_search_truncated"] = True
@@ -883,6 +915,10 @@ def probe_known(ctx):
     # (6) empty selection of an identity-less reduction: the optimized graph raises
     case = {"red": "max", "shape": [4, 2], "chunks": [[2, 2], [2]], "axis": [1], "keepdims": True, "split_every": None, "dtype": "float64",
             "nan": "none", "data_seed": 0, "index": ["1:3:2", "5:1:2"]}
+    check_slice_case(ctx, case)
+    # (5b) the same class reached through slice pushdown: the stepped slice 0:3:3 over chunks (1,4,1) leaves chunks (1,0)
+    case = {"red": "max", "shape": [2, 6, 2], "chunks": [[2], [1, 4, 1], [2]], "axis": 0, "keepdims": False, "split_every": None,
+            "dtype": "int64", "nan": "none", "data_seed": 0, "literal": np.arange(24).reshape(2, 6, 2).tolist(), "index": ["0:3:3", 0]}
     check_slice_case(ctx, case)
     # (3) argtopk with |k| == axis length spread over several chunks
     case = {"red": "argtopk", "shape": [2], "chunks": [[1, 1]], "axis": 0, "keepdims": False, "split_every": None, "dtype": "int64",
